@@ -220,6 +220,7 @@ func runC03(run *common.Run) {
 			run.Count("range_pair_reads", int64(total))
 			if run.IsThorough() && run.Replay == nil {
 				run.Set("exhaustive_subspace", "all 225^2 ordered range pairs x 8 key options on the full-universe table, each engine")
+				run.Exhaustive = true
 			}
 		}
 		// Part B: duplicated / repeated keys and ranges, 3-8 ranges, empty RowSet vs absent
